@@ -114,8 +114,11 @@ Definition mstep (s : mst) (t : nat) : mst :=
   | KC4 o => let x := mkx (usedarr (mx s)) (ucnt (mx s)) (ccnt (mx s)) (fcnt (mx s)) (slock (mx s)) false in
              match o with
              | Some id => mmk x (rings s) (msm s) (vacant s) (alive s) (upd (mthr s) t (KC5 id)) (mlog s)
-             | None => mmk x (rings s) (msm s) (vacant s) (alive s) (upd (mthr s) t MIdle) (mlog s ++ [(t, MNoStream)])   (* the code panics here *)
+             | None => mmk x (rings s) (msm s) (vacant s) (alive s) (upd (mthr s) t KCF1) (mlog s)
              end
+  (* no id was vacant: the two counters are taken back, then the code panics *)
+  | KCF1 => mmk (mkx (usedarr (mx s)) (ucnt (mx s)) (ccnt (mx s) - 1) (fcnt (mx s)) (slock (mx s)) (vlock (mx s))) (rings s) (msm s) (vacant s) (alive s) (upd (mthr s) t KCF2) (mlog s)
+  | KCF2 => mmk (mkx (usedarr (mx s)) (ucnt (mx s) - 1) (ccnt (mx s)) (fcnt (mx s)) (slock (mx s)) (vlock (mx s))) (rings s) (msm s) (vacant s) (alive s) (upd (mthr s) t MIdle) (mlog s ++ [(t, MNoStream)])
   | KC5 id => mmk (mx s) (rings s) {| wakers := wakers (msm s); keep := upd (keep (msm s)) id true; wlock := wlock (msm s); notified := notified (msm s) |}
                   (vacant s) (alive s) (upd (mthr s) t (KSL (MCreated (Z.of_nat id)))) (mlog s)
   (* report_stream_dropped *)
@@ -188,6 +191,8 @@ Definition mobs (s : mst) (t : nat) : list Z :=
   | MCount => acc t L_USEDCNT K_LOAD (ucnt (mx s)) (-1) true
   | KC1 => acc t 263 K_FAA (ccnt (mx s)) (ccnt (mx s) + 1) true
   | KC2 => acc t L_USEDCNT K_FAA (ucnt (mx s)) (ucnt (mx s) + 1) true
+  | KCF1 => acc t 263 K_FAS (ccnt (mx s)) (ccnt (mx s) - 1) true
+  | KCF2 => acc t L_USEDCNT K_FAS (ucnt (mx s)) (ucnt (mx s) - 1) true
   | KC3 | KD6 _ => if vlock (mx s) then acc t 265 K_CAS 1 (-1) false else acc t 265 K_CAS 0 1 true
   | KC4 _ | KD7 _ => acc t 265 K_STORE 0 0 true
   | KC5 id => acc t (L_KEEP + Z.of_nat id) K_KEEP_W 1 (-1) true
